@@ -60,6 +60,31 @@ Lemma dynamic_link_ok_eq img s link : dynamic_link_ok img s link =
   end.
 Proof. reflexivity. Qed.
 
+(* evaluate comparisons of two string literals *)
+Ltac str_const :=
+  repeat match goal with
+  | |- context [String.eqb (String ?a ?x) (String ?b ?y)] =>
+      let e := constr:(String.eqb (String a x) (String b y)) in
+      let v := eval vm_compute in e in change e with v
+  | H : context [String.eqb (String ?a ?x) (String ?b ?y)] |- _ =>
+      let e := constr:(String.eqb (String a x) (String b y)) in
+      let v := eval vm_compute in e in change e with v in H
+  | |- context [assoc_str kind_table (String ?a ?x)] =>
+      let e := constr:(assoc_str kind_table (String a x)) in
+      let v := eval vm_compute in e in change e with v
+  | H : context [assoc_str kind_table (String ?a ?x)] |- _ =>
+      let e := constr:(assoc_str kind_table (String a x)) in
+      let v := eval vm_compute in e in change e with v in H
+  end.
+
+Ltac known_kind :=
+  match goal with
+  | Hr : req_ok _ _ _ (snd (kind_entry (HName ?t) ?nm)) = true |- _ =>
+      rewrite (kind_entry_tbl t nm _ ltac:(discriminate) eq_refl) in Hr;
+      rewrite (kind_entry_tbl t nm _ ltac:(discriminate) eq_refl);
+      cbn [fst snd req_ok] in Hr |- *
+  end.
+
 Section WF.
 Variable img : list Z.
 Variable s : image_spec.
@@ -180,31 +205,6 @@ Proof.
   intros Hn H. unfold kind_entry. rewrite (proj2 (String.eqb_neq _ _) Hn). cbn [andb].
   rewrite (assoc_str_none _ _ H). reflexivity.
 Qed.
-
-(* evaluate comparisons of two string literals *)
-Ltac str_const :=
-  repeat match goal with
-  | |- context [String.eqb (String ?a ?x) (String ?b ?y)] =>
-      let e := constr:(String.eqb (String a x) (String b y)) in
-      let v := eval vm_compute in e in change e with v
-  | H : context [String.eqb (String ?a ?x) (String ?b ?y)] |- _ =>
-      let e := constr:(String.eqb (String a x) (String b y)) in
-      let v := eval vm_compute in e in change e with v in H
-  | |- context [assoc_str kind_table (String ?a ?x)] =>
-      let e := constr:(assoc_str kind_table (String a x)) in
-      let v := eval vm_compute in e in change e with v
-  | H : context [assoc_str kind_table (String ?a ?x)] |- _ =>
-      let e := constr:(assoc_str kind_table (String a x)) in
-      let v := eval vm_compute in e in change e with v in H
-  end.
-
-Ltac known_kind :=
-  match goal with
-  | Hr : req_ok _ _ _ (snd (kind_entry (HName ?t) ?nm)) = true |- _ =>
-      rewrite (kind_entry_tbl t nm _ ltac:(discriminate) eq_refl) in Hr;
-      rewrite (kind_entry_tbl t nm _ ltac:(discriminate) eq_refl);
-      cbn [fst snd req_ok] in Hr |- *
-  end.
 
 Lemma make_section_ok x : In x (i_sections s) ->
   make_section EF (Some (exp_shdr s (snd x))) = Ok (sec_of s x).
